@@ -7,7 +7,7 @@
  "annotate": ["util/sock_util.c"],
  "defines": ["VERIF_HALLOC", "VERIF_STRMAX=120"],
  "models": ["models/libc_string.c"],
- "cbmc": ["--malloc-may-fail", "--malloc-fail-null"],
+ "cbmc": ["--malloc-may-fail", "--malloc-fail-null", "--memory-leak-check"],
  "native": true,
  "timeout": 300,
  "assumptions": ["name length <= SA_MAXNAME = 112 bytes (sizeof(struct sockaddr_un) = 110 is the largest address used); bounds the symbolic objects only (functions are loop-free)",
@@ -47,4 +47,10 @@ h_deserialize(void)
 	VCOVER(r == NULL && buflen >= hdr && buflen == hdr + (size_t)n);
 	VCOVER(r == NULL && buflen >= hdr && n == 0xffffffffu);
 	VCOVER(r == NULL && buflen == hdr - 1);
+	/* C14: release everything the caller owns; cbmc's leak check then shows that nothing else stayed allocated */
+	if (r != NULL) {
+		free(r->name);
+		free(r);
+	}
+	free(buf);
 }
